@@ -372,6 +372,31 @@ def _constructed_roundtrip():
     return a
 
 
+def _eq_is_structural():
+    """a == b, hash-based set / dict membership  <=>  same path segments and same name, exactly (identifiers are case
+    sensitive: the grammar has no case folding, and the graph algorithms key their sets and dicts on identifiers)."""
+    from conductor.task_identifier import TaskIdentifier
+    a = Acc()
+    pool = [((), "build"), ((), "Build"), ((), "BUILD"), ((), "build_"), ((), "build-"), (("a",), "build"), (("A",), "build"),
+            (("a", "b"), "x"), (("a", "B"), "x"), (("ab",), "x"), (("a",), "b"), ((), "a"), ((), "A"), (("x",), "a0"), (("x",), "A0")]
+    idents = [(parts, name, TaskIdentifier(pathlib.Path(*parts) if parts else pathlib.Path("."), name)) for parts, name in pool]
+    for i, (p1, n1, x) in enumerate(idents):
+        for j, (p2, n2, y) in enumerate(idents):
+            inp = {"a": g_canonical(p1, n1), "b": g_canonical(p2, n2)}
+            want = (p1, n1) == (p2, n2)
+            a.ev += 1
+            if i != j and (n1.lower() == n2.lower() and tuple(s_.lower() for s_ in p1) == tuple(s_.lower() for s_ in p2)):
+                a.nt += 1
+                a.sample(inp)
+            got_eq = (x == y)
+            got_set = len({x, y}) == 1
+            got_dict = (y in {x: 1})
+            if got_eq != want or got_set != want or got_dict != want:
+                cls = "different-identifiers-compare-equal" if not want else "equal-identifiers-compare-different"
+                a.fail("structural_equality", cls, inp, want, {"==": got_eq, "set": got_set, "dict": got_dict})
+    return a
+
+
 def _output_dir_injective(tier):
     import conductor.filename as f
     from conductor.execution.version_index import Version
@@ -544,6 +569,7 @@ def run(tier, seed):
     t0 = time.time()
     totals["roundtrip"].merge(_constructed_roundtrip())
     t1 = time.time()
+    eqs = _eq_is_structural()
     inj = _output_dir_injective(tier)
     walls["inj"] = time.time() - t1
 
@@ -576,6 +602,11 @@ def run(tier, seed):
             "plus 36 identifiers constructed directly (incl. Path('.'))", True,
             "distinct accepted strings / constructed identifiers; non-trivial = the input is not already "
             "the canonical form (or was constructed directly)", walls["strings"]),
+        eqs.result(
+            "C20.eq_hash_are_structural_and_case_sensitive", ["C20", "C14", "C02", "C11"],
+            "task_identifier.py::TaskIdentifier.__eq__/__hash__",
+            "all ordered pairs over 15 identifiers that differ in case, in one character, in a path segment or not at all; ==, set and dict membership", True,
+            "distinct ordered pairs; non-trivial = the two identifiers differ only by letter case", walls["strings"]),
         inj.result(
             "C20.output_dir_injective", ["C20", "C13"],
             "filename.py::task_output_dir + task_types/base.py::TaskType.get_output_path + "
